@@ -192,6 +192,10 @@ func (h *C01Handler) ServeDNS(ctx context.Context, rw ResponseWriter, req *dns.M
 	case "panic":
 		panic("c01: simulated handler panic")
 	}
+	if strings.HasPrefix(strings.ToLower(req.Question[0].Name), "slow") {
+		// an answer that takes a while (an upstream round trip)
+		time.Sleep(60 * time.Millisecond)
+	}
 	resp := C01Answer(req)
 	h.mu.Lock()
 	h.lastResp = resp.Copy()
